@@ -340,9 +340,9 @@ impl Bdd {
                         );
                         #[cfg(feature = "adhoccountmodels")]
                         let (lo_exp, hi_exp) = if lodepth > hidepth {
-                            (1, 2usize.pow((lodepth - hidepth) as u32))
+                            (1, 2usize.saturating_pow((lodepth - hidepth) as u32))
                         } else {
-                            (2usize.pow((hidepth - lodepth) as u32), 1)
+                            (2usize.saturating_pow((hidepth - lodepth) as u32), 1)
                         };
                         #[cfg(not(feature = "adhoccountmodels"))]
                         let (lo_exp, hi_exp) = (0, 0);
@@ -351,8 +351,14 @@ impl Bdd {
                             new_term,
                             (
                                 (
-                                    lo_counts.cmodels * lo_exp + hi_counts.cmodels * hi_exp,
-                                    lo_counts.models * lo_exp + hi_counts.models * hi_exp,
+                                    lo_counts
+                                        .cmodels
+                                        .saturating_mul(lo_exp)
+                                        .saturating_add(hi_counts.cmodels.saturating_mul(hi_exp)),
+                                    lo_counts
+                                        .models
+                                        .saturating_mul(lo_exp)
+                                        .saturating_add(hi_counts.models.saturating_mul(hi_exp)),
                                 )
                                     .into(),
                                 (
@@ -446,8 +452,8 @@ impl Bdd {
             }
             (
                 (
-                    lo_counts.cmodels * 2usize.pow(lo_exp) + hi_counts.cmodels * 2usize.pow(hi_exp),
-                    lo_counts.models * 2usize.pow(lo_exp) + hi_counts.models * 2usize.pow(hi_exp),
+                    Self::scaled_sum(lo_counts.cmodels, lo_exp, hi_counts.cmodels, hi_exp),
+                    Self::scaled_sum(lo_counts.models, lo_exp, hi_counts.models, hi_exp),
                 )
                     .into(),
                 (
@@ -458,6 +464,12 @@ impl Bdd {
                 std::cmp::max(lodepth, hidepth) + 1,
             )
         }
+    }
+
+    /// Computes `lo * 2^lo_exp + hi * 2^hi_exp`, where the result saturates at [usize::MAX] instead of overflowing.
+    fn scaled_sum(lo: usize, lo_exp: u32, hi: usize, hi_exp: u32) -> usize {
+        lo.saturating_mul(2usize.saturating_pow(lo_exp))
+            .saturating_add(hi.saturating_mul(2usize.saturating_pow(hi_exp)))
     }
 
     fn modelcount_memoization(&self, term: Term) -> CountNode {
@@ -482,10 +494,8 @@ impl Bdd {
                 }
                 (
                     (
-                        lo_counts.cmodels * 2usize.pow(lo_exp)
-                            + hi_counts.cmodels * 2usize.pow(hi_exp),
-                        lo_counts.models * 2usize.pow(lo_exp)
-                            + hi_counts.models * 2usize.pow(hi_exp),
+                        Self::scaled_sum(lo_counts.cmodels, lo_exp, hi_counts.cmodels, hi_exp),
+                        Self::scaled_sum(lo_counts.models, lo_exp, hi_counts.models, hi_exp),
                     )
                         .into(),
                     (
